@@ -325,8 +325,16 @@ static void op_tab(FILE *o, const char *op)
 }
 
 /* ------------------------------------------------------------------ vec */
-static sigjmp_buf hang_jmp;
-static void on_timer(int sig) { (void)sig; siglongjmp(hang_jmp, 1); }
+static sigjmp_buf hang_jmp, op_jmp;
+static volatile int in_vec_init;
+/* SIGVTALRM: CPU-time budget exhausted.  Inside the vector init -> that init does not terminate;
+ * anywhere else -> the whole op is abandoned and reported as `timeout` (a hang of the real code is a result). */
+static void on_timer(int sig) { (void)sig; if (in_vec_init) siglongjmp(hang_jmp, 1); siglongjmp(op_jmp, 1); }
+static void op_budget(long ms)
+{
+    struct itimerval it = { {0, 0}, {ms / 1000, (ms % 1000) * 1000} };
+    setitimer(ITIMER_VIRTUAL, &it, NULL);
+}
 
 static void op_vec(FILE *o, const char *op, int d)
 {
@@ -343,19 +351,22 @@ static void op_vec(FILE *o, const char *op, int d)
         hung[r] = 0;
         dc[r] = NULL;
         /* the init is pure integer code: 300 ms of CPU time means it does not terminate */
-        struct itimerval it = { {0, 0}, {0, 300000} }, off = { {0, 0}, {0, 0} };
         if (0 == sigsetjmp(hang_jmp, 1)) {
-            setitimer(ITIMER_VIRTUAL, &it, NULL);
+            in_vec_init = 1;
+            op_budget(300);
             parsec_vector_two_dim_cyclic_init(&v[r], PARSEC_MATRIX_BYTE,
                                               d == 0 ? PARSEC_VECTOR_DISTRIB_DIAG : d == 1 ? PARSEC_VECTOR_DISTRIB_ROW : PARSEC_VECTOR_DISTRIB_COL,
                                               r, mb, lm, i, m_, P, Q);
-            setitimer(ITIMER_VIRTUAL, &off, NULL);
+            in_vec_init = 0;
+            op_budget(4000);
             v[r].mat = BASE;
             set_cap(&v[r].super);
             grow_map(&v[r].super);
             dc[r] = &v[r].super.super;
             if (first < 0) first = r;
         } else {
+            in_vec_init = 0;
+            op_budget(4000);
             hung[r] = 1;
         }
     }
@@ -423,6 +434,18 @@ int main(int argc, char **argv)
         char *res = NULL;
         size_t rlen = 0;
         FILE *o = open_memstream(&res, &rlen);
+        if (0 != sigsetjmp(op_jmp, 1)) {
+            /* the op exhausted its CPU budget inside the real code */
+            fclose(o);
+            fprintf(T, "!viol op-timeout %s\n", opline);
+            fprintf(T, "%s => timeout\n", opline);
+            fflush(T);
+            free(res);
+            free(opline);
+            nops++;
+            continue;
+        }
+        op_budget(4000);
         if (bad) fprintf(o, "bad-op");
         else if (!strcmp(op, "bc") && nW == 15 && (!strcmp(letter, "T") || !strcmp(letter, "L"))) { if (small(0, 15)) op_bc(o, opline, letter[0] == 'L', 0); else fprintf(o, "bad-op"); }
         else if (!strcmp(op, "kv") && nW == 15 && (!strcmp(letter, "T") || !strcmp(letter, "L"))) { if (small(0, 15)) op_bc(o, opline, letter[0] == 'L', 1); else fprintf(o, "bad-op"); }
@@ -433,6 +456,7 @@ int main(int argc, char **argv)
             if (small(0, 7)) op_vec(o, opline, letter[0] == 'D' ? 0 : letter[0] == 'R' ? 1 : 2); else fprintf(o, "bad-op");
         }
         else fprintf(o, "bad-op");
+        op_budget(0);
         fclose(o);
         fprintf(T, "%s => %s\n", opline, res);
         fflush(T);
